@@ -2,6 +2,7 @@
 (immutable/happiness_upload.py: share_placement and helpers; immutable/upload.py: PeerSelector, the caller whose
 get_share_placements() is the plan the uploader works from)."""
 import itertools
+import os
 
 ID = "C07"
 LEAN_PROPS = "Tahoe.Props.C07"
@@ -257,6 +258,9 @@ def random_layout(rng, max_servers, max_shares, ids=None):
     return W, R, S, ex
 
 
+# FIXED CORPUS (runs first, independent of VERIF_SEED): one minimal input per known mechanism -- the two defects repaired in
+# /repo (9abb482 shared indexedShares list, b0ebc0d dropped writable peer) and the seeded changes C07-a, C07-b; C07-c (stale
+# plan in PeerSelector) is SELECTOR_CORPUS[0] plus the grid selection run with GRID_CORPUS_SEED
 CORPUS = [
     # DESIGN §3 probe (ids relabelled w0,w1,r0,r1 -> 0,1,2,3): read-only peer gets a share it lacks on the unfixed tree
     ([0, 1], [2, 3], [0], [(1, [0]), (2, [0])]),
@@ -265,6 +269,13 @@ CORPUS = [
     # a writable peer whose only existing share went to a read-only peer is dropped from the later phases
     ([1, 2], [0], [0, 1, 2], [(0, [0]), (1, [1, 2]), (2, [0])]),
     ([0, 1], [2, 3, 4], [0, 1, 2], [(0, [0, 1, 2]), (1, [0]), (3, [0, 1])]),
+    # seeded C07-a (flow update `= 1` in _compute_maximum_graph does not cancel a back edge): server 0 holds {0,1},
+    # server 1 only {0}; the existing-shares phase must undo the greedy first match: 2 servers achievable
+    ([0, 1], [], [0, 1], [(0, [0, 1]), (1, [0])]),
+    # seeded C07-b (read-only phase result merged last: its share->None placeholder overwrites the later placement):
+    # the read-only server holds two shares, only one can be matched to it; 3 servers achievable
+    ([1, 2], [0], [0, 1, 2], [(0, [0, 2])]),
+    ([0, 1], [2], [0, 1, 2], [(2, [0, 1]), (0, [2])]),
     # plain layouts
     ([0, 1, 2], [], [0, 1, 2, 3], []),
     ([0], [], [0, 1, 2], [(0, [0, 1, 2])]),
@@ -272,7 +283,21 @@ CORPUS = [
 ]
 
 
-def run_direct(ctx):
+SELECTOR_CORPUS = [
+    # seeded C07-c: plan, the only planned server is demoted to read-only, plan again
+    (1, [("a", 0), ("a", 1), ("g",), ("r", 0), ("g",)]),
+    (3, [("a", 0), ("a", 1), ("a", 2), ("s", 2, 0), ("r", 2), ("g",), ("r", 0), ("g",), ("s", 1, 2), ("g",)]),
+    # the same after add_peer_with_share / mark_bad_peer / add_peer between the plans
+    (2, [("a", 0), ("a", 1), ("a", 2), ("g",), ("s", 1, 0), ("g",), ("b", 2), ("g",), ("a", 3), ("g",), ("r", 1), ("g",)]),
+]
+GRID_CORPUS_SEED = 20070707
+
+
+def corpus_only():
+    return os.environ.get("VERIF_CORPUS_ONLY") == "1"
+
+
+def run_direct(ctx, part="all"):
     from allmydata.immutable import happiness_upload as up
     rng = ctx.rng
     thorough = ctx.tier == "thorough"
@@ -283,8 +308,11 @@ def run_direct(ctx):
         c = ctx.replay.get("case") or {}
         if "peers" in c and all(isinstance(x, int) for x in c["peers"] + c["readonly"]):
             layouts.append((c["peers"], c["readonly"], c["shares"], [(k, v) for k, v in c["existing"]]))
-    else:
+    elif part == "corpus":
         layouts += CORPUS
+    else:
+        if part == "all":
+            layouts += CORPUS
         if thorough:
             layouts += list(exhaustive_layouts(4, 4))
             layouts += list(exhaustive_layouts(3, 5, pairs={(1, 5), (2, 5), (3, 5)}))
@@ -378,6 +406,8 @@ def run_direct(ctx):
             for sig, text in clauses(W, R, S, {k: set(v) for k, v in ex}, res):
                 ctx.violation(text, c, sig)
             ctx.case(("replay", repr(c)))
+        return
+    if part == "corpus":
         return
 
     # ---- B. direct helper calls (graph builders, _compute_maximum_graph) on ids < 8
@@ -601,14 +631,14 @@ def run_history(ctx, PeerSelector, up, total, ops, idmap=None, idseed=None):
     return ";".join(outs)
 
 
-def run_selector(ctx, histories=None):
+def run_selector(ctx, histories=None, part="all"):
     from allmydata.immutable.upload import PeerSelector
     from allmydata.immutable import happiness_upload as up
     rng = ctx.subrng("selector")
     exact = []
+    if histories is None and part == "corpus":
+        histories = [(t, o, "int", None) for (t, o) in SELECTOR_CORPUS]
     if histories is None:
-        exact = [(1, [("a", 0), ("a", 1), ("g",), ("r", 0), ("g",)]),
-                 (3, [("a", 0), ("a", 1), ("a", 2), ("s", 2, 0), ("r", 2), ("g",), ("r", 0), ("g",), ("s", 1, 2), ("g",)])]
         if ctx.tier == "thorough":
             exact += list(demotion_histories(3, 3))
             exact += list(demotion_histories(4, 2))
@@ -655,7 +685,7 @@ def run_grid(ctx, seeds=None):
     from allmydata.util import hashutil
     if seeds is None:
         base = ctx.subrng("grid").randrange(1 << 20)
-        seeds = [base + i for i in range(ctx.budget(3, 40))]
+        seeds = [base + i for i in range(ctx.budget(2, 40))]
     for seed in seeds:
         case = {"grid_selection": {"seed": seed, "servers": 6, "k": 2, "happy": 4, "n": 4}}
         with grid.Runtime(seed=seed, policy="random") as rt:
@@ -700,6 +730,19 @@ def run_grid(ctx, seeds=None):
 
 
 def run(ctx):
+    if not ctx.replay:
+        # the fixed corpus first (no random generation before it)
+        run_direct(ctx, part="corpus")
+        run_selector(ctx, part="corpus")
+        run_grid(ctx, [GRID_CORPUS_SEED])
+        if corpus_only():
+            ctx.note("VERIF_CORPUS_ONLY=1: only the fixed corpus was run (%d layouts, %d selector histories, 1 grid selection)"
+                     % (len(CORPUS), len(SELECTOR_CORPUS)))
+            return
+        run_direct(ctx, part="rest")
+        run_selector(ctx, part="rest")
+        run_grid(ctx)
+        return
     if ctx.replay:
         c = ctx.replay.get("case") or {}
         if "selector_history" in c:
@@ -711,6 +754,3 @@ def run(ctx):
             return
         run_direct(ctx)
         return
-    run_direct(ctx)
-    run_selector(ctx)
-    run_grid(ctx)
